@@ -49,6 +49,14 @@ def gen_case(rng, small=True):
         r = rng.random()
         if r < 0.25:
             d['cov'] = {'n_cov': rng.choice([1, 2]), 'sel': None if rng.random() < 0.5 else [[0, nd - 1]]}
+            if rng.random() < 0.5:
+                # any selection of the (row, dimension) grid, listed in any order, possibly with repeats
+                rows = {'P': 1, 'H': n_ids}.get(kind, 2)
+                grid = [[p, dd] for p in range(rows) for dd in range(nd)]
+                sel = rng.sample(grid, rng.randint(1, len(grid)))
+                if rng.random() < 0.3:
+                    sel.append(rng.choice(sel))
+                d['cov']['sel'] = sel
         subs.append(d)
         left -= nd
     S = [Sub(**d) for d in subs]
@@ -83,14 +91,14 @@ def gen_case(rng, small=True):
     if rng.random() < 0.2:
         fixed = 'first-top'
     return {'subs': subs, 'n_ids': n_ids, 'em': em, 'n_mech': n_mech, 'v': bottom + top, 'chis': chis, 'data': data,
-            'fixed': fixed}
+            'fixed': fixed, 'nest': popspec.gen_nest(rng, len(subs))}
 
 
 def build(case):
     import chi
     from harness.toy import PolyToyModel
     S = [Sub(**d) for d in case['subs']]
-    pop = chi.ComposedPopulationModel([s.build() for s in S])
+    pop = popspec.compose(S, case.get('nest'))
     lls = []
     for i, dat in enumerate(case['data']):
         ll = chi.LogLikelihood(PolyToyModel(case['n_mech']), c04.chi_model(case['em']), dat['obs'],
@@ -180,7 +188,47 @@ def names_check(case, res, h, S, fixed):
     for k in range(n * n_h, len(v)):
         if ids[k] is not None:
             return 'population-level position %d carries the ID %r' % (k, ids[k])
-    return None
+    # population-level names: position (row p, dimension d) of a sub-model carries that sub-model's own name for
+    # (p, d); the covariate coefficient that shifts (p, d) by covariate c is named after both
+    want, k = top_names(S, list(pop.get_dim_names())), n * n_h
+    if len(want) != len(v) - k:
+        return '%d population-level positions, %d expected' % (len(v) - k, len(want))
+    for j, (name, words) in enumerate(want):
+        got = res['names'][k + j]
+        if got != name:
+            return 'population-level position %d controls %r but is published as %r' % (k + j, name, got)
+        if not any(w in got.lower() for w in words):
+            return 'population-level position %d (%r) is not named after its role %r' % (k + j, got, words)
+
+    def evaluate(arg):
+        s1, g = h.evaluateS1(arg)
+        return float(h(arg)), float(s1), np.asarray(g, dtype=float)
+    return core.typed_problem(evaluate, v, 'the hierarchical log-likelihood (value, score, sensitivities)')
+
+
+ROLE = {'G': [('mean', 'mu'), ('std', 'sigma', 'standard', 'scale')],
+        'LN': [('mean', 'mu'), ('std', 'sigma', 'standard', 'scale')],
+        'TG': [('mean', 'mu'), ('std', 'sigma', 'standard', 'scale')], 'P': [('pool',)]}
+
+
+def top_names(S, dims):
+    """expected population-level names in published order, built from each sub-model's own names for its
+    (row, dimension) grid and the covariate names; with the words the role of the row must be recognisable by"""
+    import chi
+    out, d0 = [], 0
+    for s in S:
+        plain = Sub(s.kind, s.nd, s.centered, s.n_het).build()
+        plain.set_dim_names(dims[d0:d0 + s.nd])     # the composition's published dimension names
+        d0 += s.nd
+        base = list(plain.get_parameter_names())
+        assert len(base) == s.n_pop() and len(set(base)) == len(base)
+        role = lambda p: ROLE[s.kind][p] if s.kind != 'H' else ('id',)
+        out += [(base[p * s.nd + d], role(p)) for p in range(s.n_rows()) for d in range(s.nd)]
+        if s.cov:
+            cn = chi.LinearCovariateModel(n_cov=s.n_cov()).get_covariate_names()
+            for (p, d) in s.selection():
+                out += [(base[p * s.nd + d] + ' ' + c, role(p)) for c in cn]
+    return out
 
 
 def tagged_exact(case):
